@@ -105,8 +105,12 @@ def worker(args):
     f = fns[ep]
     agg = {}
     signal.signal(signal.SIGALRM, _alarm)
+    signal.signal(signal.SIGVTALRM, _alarm)
     def call(x):
-        signal.setitimer(signal.ITIMER_REAL, 5.0)
+        # the budget is CPU time of the call itself (a worker that is merely not scheduled on a busy machine must not be
+        # mistaken for a decoder that does not terminate); a generous wall-clock limit stands behind it
+        signal.setitimer(signal.ITIMER_VIRTUAL, 5.0)
+        signal.setitimer(signal.ITIMER_REAL, 300.0)
         try:
             f(x)
             return "ok"
@@ -115,6 +119,7 @@ def worker(args):
         except BaseException as e:  # noqa
             return type(e).__name__
         finally:
+            signal.setitimer(signal.ITIMER_VIRTUAL, 0)
             signal.setitimer(signal.ITIMER_REAL, 0)
 
     for bi, b in enumerate(inputs):
